@@ -28,8 +28,12 @@ pub enum Choice {
     /// specific {D1, A1} and recursive {D1, A2}
     SpecAndRecBoth,
     Substitute,
+    /// a substitute and specific {D1}: the same path in two registries
+    SubstAndSpecDerive,
+    /// a substitute and recursive {A2}
+    SubstAndRecAttr,
 }
-pub const CHOICES: [Choice; 8] = [
+pub const CHOICES: [Choice; 10] = [
     Choice::Absent,
     Choice::SpecDerive,
     Choice::SpecAttr,
@@ -38,10 +42,13 @@ pub const CHOICES: [Choice; 8] = [
     Choice::SpecAndRecDerive,
     Choice::SpecAndRecBoth,
     Choice::Substitute,
+    Choice::SubstAndSpecDerive,
+    Choice::SubstAndRecAttr,
 ];
 
-/// known: p::a::K, p::b::L;  unknown: a::K (a proper suffix of a known path), p::a::Z
-pub const PATHS: [&str; 4] = ["p::a::K", "p::b::L", "a::K", "p::a::Z"];
+/// known: p::a::K, p::b::L;  unknown: a::K (a proper suffix of a known path), p::a::Z, and (thorough tier)
+/// p::b::L::X (a known path is its proper prefix)
+pub const PATHS: [&str; 5] = ["p::a::K", "p::b::L", "a::K", "p::a::Z", "p::b::L::X"];
 const D1: &str = "::d::One";
 const D2: &str = "::d::Two";
 const A1: &str = "#[a1]";
@@ -89,6 +96,14 @@ fn spec_of(s: &ValState) -> SettingsSpec {
                 sp.attrs_for.push((p, vec![A2.into()], true));
             }
             Choice::Substitute => sp.substitutes.push((p.clone(), format!("::t::{}", p.replace("::", "_")))),
+            Choice::SubstAndSpecDerive => {
+                sp.substitutes.push((p.clone(), format!("::t::{}", p.replace("::", "_"))));
+                sp.derives_for.push((p, vec![D1.into()], false));
+            }
+            Choice::SubstAndRecAttr => {
+                sp.substitutes.push((p.clone(), format!("::t::{}", p.replace("::", "_"))));
+                sp.attrs_for.push((p, vec![A2.into()], true));
+            }
         }
     }
     sp
@@ -112,7 +127,7 @@ fn model(s: &ValState, reg: &PortableRegistry) -> Model {
         };
         match c {
             Choice::Absent => {}
-            Choice::SpecDerive => dd(D1),
+            Choice::SpecDerive | Choice::SubstAndSpecDerive => dd(D1),
             Choice::RecDerive => dd(D2),
             Choice::SpecAndRecDerive => {
                 dd(D1);
@@ -126,14 +141,14 @@ fn model(s: &ValState, reg: &PortableRegistry) -> Model {
         };
         match c {
             Choice::SpecAttr => aa(A1),
-            Choice::RecAttr => aa(A2),
+            Choice::RecAttr | Choice::SubstAndRecAttr => aa(A2),
             Choice::SpecAndRecBoth => {
                 aa(A1);
                 aa(A2)
             }
             _ => {}
         }
-        if *c == Choice::Substitute {
+        if matches!(c, Choice::Substitute | Choice::SubstAndSpecDerive | Choice::SubstAndRecAttr) {
             sub.insert(p.clone(), squash(&format!("::t::{}", p.replace("::", "_"))));
         }
     }
@@ -231,16 +246,23 @@ pub fn check_state(st: &ValState, ctx: &mut Ctx) {
     }
 }
 
-struct DVal;
+struct DVal {
+    n_paths: usize,
+}
 impl Driver for DVal {
     type State = ValState;
     fn name(&self) -> String {
-        "D-validate(4 paths: 2 known + 2 unknown (one a proper suffix of a known path) x 8 registrations each x 3 registry sizes x map orders)".into()
+        format!(
+            "D-validate({} paths: 2 known + {} unknown (one a proper suffix of a known path{}) x 10 registrations each (specific / recursive / both / substitute / substitute+derive) x 3 registry sizes x map orders)",
+            self.n_paths,
+            self.n_paths - 2,
+            if self.n_paths > 4 { ", one extending a known path" } else { "" }
+        )
     }
     fn initial(&self) -> Vec<ValState> {
         (1..=3u8)
             .map(|r| ValState {
-                choices: vec![Choice::Absent; 4],
+                choices: vec![Choice::Absent; self.n_paths],
                 reg_size: r,
                 filled: 0,
             })
@@ -249,7 +271,7 @@ impl Driver for DVal {
     /// a transition changes the registration of one path (paths are filled left to right)
     fn successors(&self, s: &ValState, depth: u32) -> Vec<ValState> {
         let i = depth as usize;
-        if i >= 4 {
+        if i >= self.n_paths {
             return vec![];
         }
         CHOICES
@@ -377,12 +399,13 @@ pub fn run(tier: &str, seed: u64) -> i32 {
     let mut report = Report::new("C11", tier, seed, "model_checking");
     let thorough = tier == "thorough";
     let budget = Budget {
-        max_depth: 4,
-        wall: Duration::from_secs(if thorough { 600 } else { 150 }),
+        max_depth: 5,
+        wall: Duration::from_secs(if thorough { 1200 } else { 150 }),
         max_states: 10_000_000,
     };
     // only complete assignments (depth 4) differ from their prefixes by more `Absent`s; all are checked
-    report.add(explore(&DVal, &budget, seed, |s, ctx| check_state(s, ctx)));
+    let dval = DVal { n_paths: if thorough { 5 } else { 4 } };
+    report.add(explore(&dval, &budget, seed, |s, ctx| check_state(s, ctx)));
     let cases = sim_cases(thorough);
     report.add(sweep(
         "D-similar(all ordered selections of <= 4 registry paths over last identifiers {S, T, a, S2} x 9 queries)",
